@@ -1312,7 +1312,22 @@ class Wtp:
             # print("parent = {!r}".format(parent))
             # print("expand_recurse coded={!r}".format(coded))
 
-            def expand_args(coded: str, argmap: TemplateArgs) -> str:
+            def too_deep(what: str) -> str:
+                # Nesting beyond the depth limit is reported in-band
+                self.error(
+                    "too deep recursion during template expansion",
+                    sortid="core/1115",
+                )
+                return (
+                    '<strong class="error">too deep recursion '
+                    "while expanding template {}</strong>".format(what)
+                )
+
+            def expand_args(
+                coded: str, argmap: TemplateArgs, depth: int = 0
+            ) -> str:
+                # ``depth`` counts how deeply the calls, argument references
+                # and links being substituted are nested in one another
                 assert isinstance(coded, str)
                 assert isinstance(argmap, dict)
                 parts: list[str] = []
@@ -1332,11 +1347,18 @@ class Wtp:
                         # keep it as-is (it won't be expanded)
                         parts.append(ch)
                         continue
+                    if depth >= 100 and kind in ("T", "A", "L", "E"):
+                        # Limit recursion depth (same limit as for the
+                        # expansion path in expand_recurse)
+                        parts.append(too_deep("arguments"))
+                        continue
                     if kind == "T":
                         # Template transclusion or parser function call.
                         # Expand its arguments.
                         new_args = tuple(
-                            expand_args(x, argmap).removesuffix("\n")
+                            expand_args(x, argmap, depth + 1).removesuffix(
+                                "\n"
+                            )
                             for x in args
                         )
                         parts.append(self._save_value(kind, new_args, nowiki))
@@ -1354,7 +1376,9 @@ class Wtp:
                         self.expand_stack.append("ARG-NAME")
                         k: Union[int, str]
                         k = expand_recurse(
-                            expand_args(args[0], argmap), parent, True
+                            expand_args(args[0], argmap, depth + 1),
+                            parent,
+                            True,
                         ).strip()
                         self.expand_stack.pop()
                         if k.isdecimal() and int(k) > 0:
@@ -1367,7 +1391,7 @@ class Wtp:
                             continue
                         if len(args) >= 2:
                             self.expand_stack.append("ARG-DEFVAL")
-                            ret = expand_args(args[1], argmap)
+                            ret = expand_args(args[1], argmap, depth + 1)
                             self.expand_stack.pop()
                             parts.append(ret)
                             continue
@@ -1377,12 +1401,16 @@ class Wtp:
                         continue
                     if kind == "L":
                         # Link to another page
-                        new_args = tuple(expand_args(x, argmap) for x in args)
+                        new_args = tuple(
+                            expand_args(x, argmap, depth + 1) for x in args
+                        )
                         parts.append(self._unexpanded_link(new_args, nowiki))
                         continue
                     if kind == "E":
                         # Link to another page
-                        new_args = tuple(expand_args(x, argmap) for x in args)
+                        new_args = tuple(
+                            expand_args(x, argmap, depth + 1) for x in args
+                        )
                         parts.append(self._unexpanded_extlink(new_args, nowiki))
                         continue
                     if kind == "N":
@@ -1702,6 +1730,11 @@ class Wtp:
                 elif kind == "L":
                     if nowiki:
                         parts.append(self._unexpanded_link(args, nowiki))
+                    elif len(self.expand_stack) >= 100:
+                        # Links count towards the recursion depth too
+                        parts.append(
+                            too_deep(self._unexpanded_link(args, True))
+                        )
                     else:
                         # Link to another page
                         self.expand_stack.append("[[link]]")
@@ -1713,6 +1746,10 @@ class Wtp:
                 elif kind == "E":
                     if nowiki:
                         parts.append(self._unexpanded_extlink(args, nowiki))
+                    elif len(self.expand_stack) >= 100:
+                        parts.append(
+                            too_deep(self._unexpanded_extlink(args, True))
+                        )
                     else:
                         # Link to an external page
                         self.expand_stack.append("[extlink]")
